@@ -1,7 +1,8 @@
 // Kani harnesses for crates/core/src/replacer/indent.rs (child module, scratch copy only); C = String (bytes)
 use super::*;
 
-const ALPHA: [u8; 3] = [b' ', b'\n', b'a'];
+// tab included: only spaces are indentation, a tab is ordinary text
+const ALPHA: [u8; 4] = [b' ', b'\n', b'a', b'\t'];
 
 fn any_bytes<const N: usize>(buf: &mut [u8; N]) -> usize {
   let len: usize = kani::any();
@@ -92,7 +93,7 @@ fn check_shift<const N: usize>() {
   let lines = &buf[..len];
   let orig: usize = kani::any();
   let new: usize = kani::any();
-  kani::assume(orig <= 2 && new <= 2);
+  kani::assume(orig <= 1 && new <= 1);
   kani::assume(well_indented(lines, orig));
   let got = indent_lines::<String>(new, DeindentedExtract::MultiLine(lines, orig));
   let mut want = [0u8; 32];
@@ -106,16 +107,16 @@ fn check_shift<const N: usize>() {
 }
 
 #[kani::proof]
-#[kani::unwind(8)]
-fn indent_lines_shift_len5() {
-  check_shift::<5>();
+#[kani::unwind(10)]
+fn indent_lines_shift_len4() {
+  check_shift::<4>();
 }
 
 /// self-rewrite is a no-op: re-inserting an extracted range at its own indentation returns the range
 #[kani::proof]
-#[kani::unwind(9)]
-fn extract_reinsert_identity_len6() {
-  let mut buf = [0u8; 6];
+#[kani::unwind(7)]
+fn extract_reinsert_identity_len4() {
+  let mut buf = [0u8; 4];
   let len = any_bytes(&mut buf);
   let a: usize = kani::any();
   let b: usize = kani::any();
